@@ -184,4 +184,162 @@ theorem build_parse_request (O : Oracle) (v : UInt8) (h : Bytes) (hh : h.length 
   unfold parseTransactionRequest
   simp [sliceFrom_cons, sliceFrom_zero, hh, copyN_exact hh]
 
+
+/-! ## build → parse, message kinds with lists -/
+
+def tAll := [tAnnouncement, tPreCommitments, tGraph, tPing, tAuthentication, tSnapshotConfirm,
+    tTransaction, tTransactionBundle, tFinalizedTransactionBundle, tTransactionRequest, tCommitment,
+    tFullChallenge, tTransactionChallenge, tResponse, tFinalization, tRelay, tConsumers]
+
+theorem dispatch_commitment (O : Oracle) (m : Msg) (d : Bytes) :
+    dispatch O m tCommitment d = parseCommitment O m d := by
+  simp [dispatch, tAnnouncement, tPreCommitments, tGraph, tPing, tAuthentication, tSnapshotConfirm,
+    tTransaction, tTransactionBundle, tFinalizedTransactionBundle, tTransactionRequest, tCommitment]
+
+theorem dispatch_full (O : Oracle) (m : Msg) (d : Bytes) :
+    dispatch O m tFullChallenge d = parseFullChallenge O m d := by
+  simp [dispatch, tAnnouncement, tPreCommitments, tGraph, tPing, tAuthentication, tSnapshotConfirm,
+    tTransaction, tTransactionBundle, tFinalizedTransactionBundle, tTransactionRequest, tCommitment,
+    tFullChallenge]
+
+theorem dispatch_txc (O : Oracle) (m : Msg) (d : Bytes) :
+    dispatch O m tTransactionChallenge d = parseTransactionChallenge O m d := by
+  simp [dispatch, tAnnouncement, tPreCommitments, tGraph, tPing, tAuthentication, tSnapshotConfirm,
+    tTransaction, tTransactionBundle, tFinalizedTransactionBundle, tTransactionRequest, tCommitment,
+    tFullChallenge, tTransactionChallenge]
+
+theorem dispatch_bundle (O : Oracle) (m : Msg) (d : Bytes) (t : UInt8)
+    (h : t = tTransactionBundle ∨ t = tFinalizedTransactionBundle) :
+    dispatch O m t d = parseBundle O m d := by
+  rcases h with h | h <;> subst h <;>
+  simp [dispatch, tPreCommitments, tGraph, tPing, tAuthentication, tSnapshotConfirm,
+    tTransaction, tTransactionBundle, tFinalizedTransactionBundle]
+
+theorem dispatch_graph (O : Oracle) (m : Msg) (d : Bytes) :
+    dispatch O m tGraph d = parseGraph m d := by
+  simp [dispatch, tPreCommitments, tGraph]
+
+theorem dispatch_pre (O : Oracle) (m : Msg) (d : Bytes) :
+    dispatch O m tPreCommitments d = parsePreCommitments O m d := by
+  simp [dispatch]
+
+/-- `parseTransactionsPayload (buildTransactionsPayload txs) = txs` for 0..255 transactions -/
+theorem payload_roundtrip (O : Oracle) (txs : List Bytes) (hn : txs.length ≤ 255)
+    (hk : ∀ t ∈ txs, O.tx t = true) (hl : ∀ t ∈ txs, t.length < 2 ^ 32) :
+    ∃ pl, buildTransactionsPayload txs = some pl ∧ 1 ≤ pl.length ∧ parseTransactionsPayload O pl = .ok txs := by
+  refine ⟨UInt8.ofNat txs.length :: (txs.map (fun pl => beBytes 4 pl.length ++ pl)).flatten, ?_, ?_, ?_⟩
+  · unfold buildTransactionsPayload snapshotTransactionsMaximum
+    rw [if_neg (by omega)]
+  · simp
+  · unfold parseTransactionsPayload
+    have hc : (UInt8.ofNat txs.length).toNat = txs.length := by
+      simp [UInt8.toNat_ofNat']; omega
+    simp only [sliceFrom_cons, sliceFrom_zero, hc]
+    exact parseTxLoop_flatten O txs hk hl
+
+/-- more than 255 transactions: the builder panics (`panic(total)`), nothing is sent -/
+theorem payload_build_panics (txs : List Bytes) (hn : 255 < txs.length) : buildTransactionsPayload txs = none := by
+  unfold buildTransactionsPayload snapshotTransactionsMaximum
+  rw [if_pos hn]
+
+theorem build_parse_bundle (O : Oracle) (v : UInt8) (txs : List Bytes) (typ : UInt8)
+    (htyp : typ = tTransactionBundle ∨ typ = tFinalizedTransactionBundle) (hn : txs.length ≤ 255)
+    (hk : ∀ t ∈ txs, O.tx t = true) (hl : ∀ t ∈ txs, t.length < 2 ^ 32) :
+    ∃ b, buildTransactions txs typ = some b ∧
+      parse O v b = .ok { type := typ, version := v, transactions := txs } := by
+  obtain ⟨pl, h1, _, h3⟩ := payload_roundtrip O txs hn hk hl
+  refine ⟨typ :: pl, by simp [buildTransactions, h1], ?_⟩
+  unfold parse
+  simp only [dispatch_bundle _ _ _ _ htyp]
+  unfold parseBundle
+  simp [sliceFrom_cons, sliceFrom_zero, h3]
+
+theorem build_parse_commitment (O : Oracle) (v : UInt8) (sig h R : Bytes) (ws : List Bytes)
+    (hsig : sig.length = 64) (hh : h.length = 32) (hR : R.length = 32) (hk : O.checkKey R = true)
+    (hw : ∀ w ∈ ws, w.length = 32) :
+    parse O v (buildCommitment sig h R ws) =
+      .ok { type := tCommitment, version := v, snapshotHash := h, commitment := R, wantTxs := ws,
+            signature := some sig, unsigned := h ++ (R ++ ws.flatten) } := by
+  unfold buildCommitment parse
+  simp only [dispatch_commitment]
+  unfold parseCommitment
+  have hf := flatten_length32 ws hw
+  have h3 : ¬ (sig ++ (h ++ (R ++ ws.flatten))).length < 128 := by simp; omega
+  simp (disch := omega) only [sliceFrom_cons, sliceFrom_zero, sliceFrom_append, slice_cons, slice_prefix, hsig, hh, hR,
+    Nat.sub_self, copyN_append, hk, Nat.reduceSub]
+  rw [if_neg h3]
+  simp only [Bool.not_true, Bool.false_eq_true, if_false, copyN_exact hsig]
+  cases ws with
+  | nil => simp
+  | cons w t =>
+    have hpos : (w :: t).flatten.length > 0 := by rw [hf]; simp
+    have hmod : ¬ (w :: t).flatten.length % 32 ≠ 0 := by rw [hf]; simp
+    have hdiv : (w :: t).flatten.length / 32 = (w :: t).length := by rw [hf]; simp
+    rw [if_pos hpos, if_neg hmod, hdiv]
+    have := wantLoop_flatten (w :: t) [] (by simpa using hw)
+    simp only [List.nil_append, List.length_nil] at this
+    rw [this]
+
+theorem build_parse_transaction_challenge (O : Oracle) (v : UInt8) (h cs : Bytes) (mask : Nat) (txs : List Bytes)
+    (hh : h.length = 32) (hcs : cs.length = 64) (hm : mask < 2 ^ 64) (hn : txs.length ≤ 255)
+    (hk : ∀ t ∈ txs, O.tx t = true) (hl : ∀ t ∈ txs, t.length < 2 ^ 32) :
+    ∃ b, buildTransactionChallenge h cs mask txs = some b ∧
+      parse O v b = .ok { type := tTransactionChallenge, version := v, snapshotHash := h, cosiSig := cs,
+                          cosiMask := mask, transactions := txs } := by
+  obtain ⟨pl, h1, h2, h3⟩ := payload_roundtrip O txs hn hk hl
+  refine ⟨tTransactionChallenge :: (h ++ (cs ++ (beBytes 8 mask ++ pl))), by simp [buildTransactionChallenge, h1], ?_⟩
+  unfold parse
+  simp only [dispatch_txc]
+  unfold parseTransactionChallenge
+  have hb : (beBytes 8 mask).length = 8 := length_beBytes _ _
+  have hv : beNat (beBytes 8 mask) = mask := by
+    rw [beNat_beBytes]; exact Nat.mod_eq_of_lt (by simpa using hm)
+  have hlen : ¬ (h ++ (cs ++ (beBytes 8 mask ++ pl))).length < 105 := by simp [hb]; omega
+  simp (disch := omega) only [sliceFrom_cons, sliceFrom_zero, sliceFrom_append, slice_cons, slice_append, slice_prefix,
+    hh, hcs, hb, Nat.sub_self, copyN_append, Nat.reduceSub, h3, hv]
+  rw [if_neg hlen]
+
+theorem build_parse_full_challenge (O : Oracle) (v : UInt8) (snap cm ch : Bytes) (txs : List Bytes)
+    (info : SnapInfo) (csig : Bytes) (cmask : Nat) (b : Bytes)
+    (hb : buildFullChallenge snap cm ch txs = some b)
+    (hsize : 257 ≤ b.length) (hsn : snap.length < 2 ^ 32)
+    (hs : O.snap snap = some info) (hc : info.cosi = some (csig, cmask))
+    (hcm : cm.length = 32) (hch : ch.length = 32) (hk1 : O.checkKey cm = true) (hk2 : O.checkKey ch = true)
+    (hk : ∀ t ∈ txs, O.tx t = true) (hl : ∀ t ∈ txs, t.length < 2 ^ 32) :
+    parse O v b = .ok { type := tFullChallenge, version := v, snapshot := some { body := info.body, cosi := none },
+                        cosiSig := csig, cosiMask := cmask, commitment := cm, challenge := ch,
+                        transactions := txs } := by
+  have hn : txs.length ≤ 255 := by
+    by_cases hn : txs.length ≤ 255
+    · exact hn
+    · simp [buildFullChallenge, payload_build_panics txs (by omega)] at hb
+  obtain ⟨pl, h1, h2, h3⟩ := payload_roundtrip O txs hn hk hl
+  simp only [buildFullChallenge, h1, Option.some.injEq] at hb
+  subst hb
+  unfold parse
+  simp only [dispatch_full]
+  unfold parseFullChallenge
+  have hb4 : (beBytes 4 snap.length).length = 4 := length_beBytes _ _
+  have hv : beNat (beBytes 4 snap.length) = snap.length := by
+    rw [beNat_beBytes]; exact Nat.mod_eq_of_lt (by simpa using hsn)
+  have hlen : ¬ (beBytes 4 snap.length ++ (snap ++ (cm ++ (ch ++ pl)))).length < 256 := by
+    simp at hsize ⊢; omega
+  have hlen2 : ¬ (snap ++ (cm ++ (ch ++ pl))).length < snap.length := by simp
+  have hlen3 : ¬ (cm ++ (ch ++ pl)).length < 65 := by simp; omega
+  simp (disch := omega) only [sliceFrom_cons, sliceFrom_zero, slice_cons, slice_prefix, hb4, hv]
+  rw [if_neg hlen]
+  simp (disch := omega) only [sliceFrom_append, hb4, Nat.sub_self, sliceFrom_zero, Nat.reduceSub]
+  rw [if_neg hlen2]
+  have e5 : 5 + snap.length = (4 + snap.length) + 1 := by omega
+  rw [e5]
+  simp (disch := omega) only [slice_cons, slice_append, hb4, Nat.sub_self, Nat.add_sub_cancel_left, slice_prefix, hs, hc,
+    sliceFrom_cons, sliceFrom_append, sliceFrom_zero]
+  rw [if_neg hlen3]
+  have ea : 4 + snap.length + 1 + 31 - 4 - snap.length - cm.length = 0 := by omega
+  have eb : 4 + snap.length + 1 + 63 - 4 - snap.length - cm.length = 32 := by omega
+  have ec : 4 + snap.length + 1 + 63 - 4 - snap.length - cm.length - ch.length = 0 := by omega
+  simp only [ea, eb, ec, copyN_exact hcm, hk1, slice_prefix _ hch, copyN_exact hch, hk2, sliceFrom_zero, h3, hch,
+    Nat.sub_self]
+  simp
+
 end Mixin.C08
